@@ -197,6 +197,15 @@ func (e *specEnv) callExpr(n *ECall, hint types.Type) sv {
 		argn(1)
 		return sv{Val: Val{t: e.heldTerm(n.Fun, n.Args[0]), typ: tBool}}
 	}
+	if n.Fun == "fresh" {
+		// fresh(x): the object x refers to was allocated after the function was entered
+		argn(1)
+		x := e.eval(n.Args[0], nil)
+		if x.typ == nil || !isRefLike(x.typ) || u.entryState == nil {
+			sfail("fresh(x) needs a slice, pointer or map inside a function contract")
+		}
+		return sv{Val: Val{t: "(> " + refOf(e.term(x, x.typ), x.typ) + " " + u.entryState.get(u, allocKey) + ")", typ: tBool}}
+	}
 	if n.Fun == "noneHeld" {
 		// noneHeld(Struct.field): this function holds no lock of that class
 		argn(1)
